@@ -380,7 +380,7 @@ def files(ctx):
         for k in range(ctx.n(40, 600)):
             kinds = rng.sample(A.KINDS, k=rng.randrange(0, 4))
             vals = {kd: A.GEN[kd](rng) for kd in kinds}
-            mode = rng.choice(["same", "same-content-other-bytes", "same-content-other-bytes", "block-changed", "slots", "version", "order", "block-missing"])
+            mode = rng.choice(["same", "same-content-other-bytes", "same-content-other-bytes", "block-changed", "block-changed", "slots", "version", "order", "block-missing"])
             vals2 = dict(vals)
             n1 = n2 = rng.choice([4, 14])
             ver1 = ver2 = 1
@@ -436,6 +436,11 @@ def files(ctx):
                 return p
             p1 = mk(kinds, vals, n1, ver1, f"a{k}.tdf")
             p2 = (mk_foreign if mode == "same-content-other-bytes" else mk)(order2, vals2, n2, ver2, f"b{k}.tdf")
+            if rng.random() < 0.7:
+                # both files carry the same time stamps (extracted from one archive, copied with their metadata, written within one
+                # tick of a coarse file system): what the file SYSTEM says about two files says nothing about their content
+                st = os.stat(p1)
+                os.utime(p2, ns=(st.st_atime_ns, st.st_mtime_ns))
             with Tdf(p1) as t1, Tdf(p2) as t2:
                 got = safe_eq(t1, t2)
             ctx.case(("file", mode, str(kinds), k), nontrivial=bool(kinds), tags=("file:" + mode,))
